@@ -178,17 +178,19 @@ CHECKS = {
         ],
     },
     "C12": {
+        "cli": True,
         "technique": "exhaustive enumeration of a small (target, patch) grammar + rapid random generation, differential oracle = RFC 7386 pseudocode",
         "level_text": "Every (target, patch) pair over the grammar v ::= 1 | null | [1] | {} | {a:v} | {a:v,b:v} to depth 2 is read and applied by jd and by the RFC 7386 "
                       "pseudocode and the results must be identical; larger documents with injected nulls and empty objects are sampled. Complete for the enumerated grammar, exploration beyond it.",
         "level_note": "Trusts ref.MergePatch. Two root-level corner cases are listed findings (D16: patch null; D17: patch {} on a non-object target) and are excluded by construction of the verdict, counted in excluded_known.",
-        "rule": "exhaustive leg: all ordered pairs of the 604 grammar values (thorough: leaf \"s\" added); chain leg: 2-4 merge patches applied one after the other to the value returned by the previous Patch (no re-parsing), compared with the folded RFC algorithm, with fixed probe patches on fresh documents after every step (state leaking between calls); random leg: targets = objects (70%) or any document, 30% sharing a chain of up to 6 nested objects with the patch, patch = Edit(target) with nulls and {} injected at drawn depths and new keys, "
+        "rule": "cli leg: both binaries run -f merge -p PATCH TARGET (35% with -yaml and a YAML target, 20% with the target on stdin), patches carrying per cent signs, DEL/NEL/U+FFFE, 2^63 and 2^64-2048, -0; the printed document is compared with the RFC algorithm; exhaustive leg: all ordered pairs of the 604 grammar values (thorough: leaf \"s\" added); chain leg: 2-4 merge patches applied one after the other to the value returned by the previous Patch (no re-parsing), compared with the folded RFC algorithm, with fixed probe patches on fresh documents after every step (state leaking between calls); random leg: targets = objects (70%) or any document, 30% sharing a chain of up to 6 nested objects with the patch, patch = Edit(target) with nulls and {} injected at drawn depths and new keys, "
                 "or an independent value. Non-trivial: the patch contains a null or a nested {} , or it is an object applied to a non-object; distinct by (target, patch).",
         "assumptions": ["array values in results are compared as ordered lists"],
         "legs": [
             enum("exhaustive", "TestC12Exhaustive", {"shards": 8}, {"shards": 16, "timeout": 6000}),
             rapid("random", "TestC12Random", {"checks": 30000, "shards": 4}, {"checks": 300000, "shards": 16, "timeout": 6000}),
             rapid("chain", "TestC12Chain", {"checks": 15000, "shards": 2}, {"checks": 150000, "shards": 8, "timeout": 6000}),
+            rapid("cli", "TestC12CLI", {"checks": 150, "shards": 4, "shrinktime": "10s"}, {"checks": 2500, "shards": 16, "timeout": 6000}),
         ],
     },
     "C14": {
@@ -273,15 +275,17 @@ CHECKS = {
         ],
     },
     "C17": {
+        "cli": True,
         "technique": "rapid random generation of pairs and v1 metadata, round-trip oracle (in memory and through Render/ReadDiffString) judged by v1 Equals, metamorphic oracle len(Diff)==0 <=> Equals",
         "level_text": "The v1 library (package lib) is driven with generated pairs under list, set, multiset, setkeys, merge (null-free) and precision metadata: the diff is applied in memory and "
                       "after a text round trip (which must re-render identically) and must reproduce b; the diff must be empty exactly when Equals holds. Exploration over sampled pairs.",
         "level_note": "Equality is v1's own Equals, as the statement says; v1 shares the hash-based set equality of v2 without type tags, which this property (coherence, not correctness of Equals) does not judge.",
         "rule": "C01's pair generator with list-heavy profiles (arrays growing, shrinking and changing in place give -1 append indices and reverse-order deletions), C04's boundary pairs (20%) and "
-                "precision pairs (12%), under list, set, mset, setkeys:id, merge, prec:eps. Non-trivial: texts differ and (the diff is non-empty or the documents are Equal); distinct by (a, b, metadata).",
+                "precision pairs (12%), under list, set, mset, setkeys:id, set+setkeys:id, merge, prec:eps, 30% with the nasty key / payload pools; cli leg: the top-level binary with -v2=false prints the diff of payload-heavy documents, exits 0 iff Equals, the text equals the v1 library rendering and -p turns a into b. Non-trivial: texts differ and (the diff is non-empty or the documents are Equal); distinct by (a, b, metadata).",
         "assumptions": ["a fresh parse of a for every Patch"],
         "legs": [
             rapid("random", "TestC17Random", {"checks": 30000, "shards": 4}, {"checks": 300000, "shards": 16, "timeout": 6000}),
+            rapid("cli", "TestC17CLI", {"checks": 120, "shards": 4, "shrinktime": "10s"}, {"checks": 2000, "shards": 16, "timeout": 6000}),
         ],
     },
     "C18": {
